@@ -3,6 +3,7 @@ import re
 from facts import P, pstr, op_place, op_local, op_const, const_val, ostr, rvstr, callee_is, callee_name, rv_operands
 import an
 import names as N
+import rules_panic as RP
 import rules_create as RC
 
 GENO_FROM = ("sfs_core::input::genotype::reader::vcf::<impl core::convert::From<core::option::Option<"
@@ -611,7 +612,9 @@ def c09d(chk):
         for c in prog.closures_of(f.path):
             chk.fns_analysed.add(c.path)
             so = [t for b2, t in c.calls() if callee_is(t["callee"], "core::str::<impl str>::split_once")]
-            others = [callee_name(t["callee"]) for b2, t in c.calls() if not callee_is(t["callee"], "core::str::<impl str>::split_once")]
+            # nothing else touches the line or its parts: in the closure and the closures nested in it only Option plumbing is allowed
+            others = [callee_name(t["callee"]) for g_ in [c] + prog.closures_of(c.path) for b2, t in g_.calls()
+                      if not callee_is(t["callee"], "core::str::<impl str>::split_once") and not (t["callee"].get("path") or "").startswith("core::option::Option::<T>::")]
             if len(so) == 1:
                 sep = an.const_of(c, so[0]["args"][1])
                 sepv = sep.get("val") if sep else None
@@ -719,32 +722,42 @@ def c09e(chk):
 
 
 def c09f(chk):
+    import iters as IT
+    prog = chk.prog
     f = chk.fn(RC.MAP_SHAPE)
     if f is None:
         return
-    maps = an.calls(f, N.MAP)
+    its = IT.iterations(prog, f)
+    unit = [f] + prog.closures_of(f.path)
+    GET = "std::collections::hash::map::HashMap::<K, V, S, A>::get"
+    gets = [(g, b, t) for g in unit for b, t in g.calls() if (t["callee"].get("path") or "") == GET]
+    it = None
+    if len(gets) == 1:
+        g, gb, gt = gets[0]
+        inside = [x for x in its if x.body is g and gb in x.blocks]
+        it = min(inside, key=lambda x: len(x.blocks)) if inside else None
     ok = False
-    why = "map over a range not recognised"
-    if len(maps) == 1:
-        l = op_local(maps[0][1]["args"][0])
-        d = f.single_def(f.copy_root(l)) if l is not None else None
+    why = "iteration over a range of population ids (containing the HashMap::get lookup) not recognised"
+    if it is not None:
+        chk.fns_analysed.add(it.body.path)
+        ch = it.chain()
+        src = ch[-1][1]
+        d = f.single_def(f.copy_root(src[0])) if src is not None and not src[1] else None
+        plain = [n for n in IT.chain_names(ch) if n not in ("map",)] == []
         if d and d[0] == "assign" and d[3]["k"] == "aggregate" and d[3].get("adt") == "core::ops::range::Range":
             lo = const_val(d[3]["ops"][0])
-            hi = d[3]["ops"][1]
-            hl = op_local(hi)
+            hl = op_local(d[3]["ops"][1])
             hd = f.single_def(f.copy_root(hl)) if hl is not None else None
-            ok = lo == 0 and hd is not None and hd[0] == "call" and (hd[2]["callee"].get("path") or "").endswith("::len")
-            why = "Range(%s, %s)" % (lo, callee_name(hd[2]["callee"]) if hd and hd[0] == "call" else "?")
+            ok = lo == 0 and hd is not None and hd[0] == "call" and (hd[2]["callee"].get("path") or "").endswith("::len") and plain and (it.runs_for_every_element() and not it.switches())
+            why = "%s: Range(%s, %s), no reordering adaptor=%s, every id=%s" % (it.describe(), lo, callee_name(hd[2]["callee"]) if hd and hd[0] == "call" else "?", plain, it.runs_for_every_element() and not it.switches())
     chk.ob("C09.f", "Map::shape/ids-0..len-in-order", ok, f.loc(), "axes are produced for population ids 0..len in increasing order: " + why)
-    c = chk.prog.fn(RC.MAP_SHAPE + "::{closure#0}")
-    if c is not None:
-        ok = False
-        for b, i, p, rv, s in c.assigns():
+    ok = False
+    if it is not None:
+        g = it.body
+        for b, i, p, rv, s in it.assigns():
             if rv["k"] == "aggregate" and rv.get("adt") == POP_ID:
-                l = op_local(rv["ops"][0])
-                ok = l is not None and c.copy_root(l) == 2
-        gets = [t for b, t in c.calls() if (t["callee"].get("path") or "") == "std::collections::hash::map::HashMap::<K, V, S, A>::get"]
-        chk.ob("C09.f", "Map::shape::closure/looks-up-Id(param)", ok and len(gets) == 1, c.loc(), "axis j is the size of population id j (HashMap read by key, never iterated)")
+                ok = it.elem_path(rv["ops"][0]) == ()
+    chk.ob("C09.f", "Map::shape::closure/looks-up-Id(param)", ok and len(gets) == 1, it.loc() if it else f.loc(), "axis j is the size of population id j (HashMap read by key Id(j) with j the iteration's element, never iterated)")
 
 
 def c09g(chk):
@@ -829,7 +842,8 @@ def c09g(chk):
 # ====================================================================================
 # C12
 # ====================================================================================
-HASH_ALLOWED = {"new", "with_capacity", "from_iter", "entry", "or_insert", "get", "contains", "contains_key", "insert", "len", "is_empty", "default"}
+PASSIVE_OK = {"fold", "try_fold", "collect", "map", "and_then", "unwrap_or_default", "default", "clone", "sum", "product", "unzip", "partition", "then", "then_some", "get_or_insert_with", "get_or_init"}
+HASH_ALLOWED = {"new", "with_capacity", "from_iter", "entry", "or_insert", "or_insert_with", "or_default", "and_modify", "get", "get_mut", "get_key_value", "remove", "contains", "contains_key", "insert", "len", "is_empty", "default"}
 AMBIENT_PREFIXES = ("std::env::", "std::time::", "std::thread::", "std::process::id", "std::hash::random::", "std::collections::hash::map::RandomState", "std::io::stdio::IsTerminal", "std::net::", "std::os::")
 GENO_BUILDER = "sfs_core::input::genotype::reader::builder::Builder"
 
@@ -859,14 +873,22 @@ def c12a(chk):
         for b, t in f.calls():
             c = t["callee"]
             p = c.get("path") or ""
-            blob = " ".join([p, c.get("self_ty") or ""] + c.get("args", []))
-            if "std::collections::hash::" not in blob:
+            name = p.split("::")[-1]
+            HASH = "std::collections::hash::"
+            self_ty = c.get("self_ty") or ""
+            gen = c.get("args", [])
+            own = p.startswith(HASH) or HASH in self_ty or (bool(gen) and HASH in gen[0] and "::" in p and not p.startswith(("core::iter::traits::iterator::Iterator::", "core::option::", "core::result::")))
+            # a hash container named only as a type parameter: harmless where it is the result or the accumulator (collect::<HashMap>, fold::<HashMap, _>,
+            # Option<HashMap>::unwrap), order-observing where it is the thing iterated (Vec::from_iter(map), v.extend(map), a.zip(map))
+            passive = not own and any(HASH in a for a in gen)
+            if not own and not passive:
+                continue
+            if passive and (name in PASSIVE_OK or p.startswith(("core::option::", "core::result::", "core::mem::", "core::ops::try_trait::", "core::ptr::", "core::ops::function::"))):
                 continue
             n += 1
             chk.saw_calls()
-            name = p.split("::")[-1]
-            chk.ob("C12.a", "%s/%s" % (f.path.split("sfs_core::")[-1], name), name in HASH_ALLOWED, f.loc(b),
-                   "`%s` on a HashMap/HashSet: only keyed and size methods %s keep the result independent of the hash seed (iteration, Debug, extend, drain, retain are order-observing)" % (name, sorted(HASH_ALLOWED)))
+            chk.ob("C12.a", "%s/%s" % (RP.norm_fn(f.path).split("sfs_core::")[-1], name), name in HASH_ALLOWED and not passive, f.loc(b),
+                   "`%s` %s a HashMap/HashSet: only keyed and size methods %s keep the result independent of the hash seed (iteration, Debug, extend-from, drain, retain are order-observing)" % (name, "iterating over" if passive else "on", sorted(HASH_ALLOWED)))
         # hash containers handed to formatting
         for b, i, p, rv, s in f.assigns():
             pass
